@@ -128,6 +128,11 @@ theorem validator_code (re : Regex) (oracle : AsyncOracle) (v : String) (f : Fil
               | (cases hs : severityOf b.block.attrs with
                   | error e => simp [hs] at h
                   | ok sev => simp only [hs, Except.ok.injEq, Option.some.injEq] at h; rw [← h]; rfl)
+              | (split at h
+                 · cases h
+                 · cases hs : severityOf b.block.attrs with
+                   | error e => simp [hs] at h
+                   | ok sev => simp only [hs, Except.ok.injEq, Option.some.injEq] at h; rw [← h]; rfl)
     · simp only [ha] at h
       split at h
       · cases h
@@ -141,6 +146,11 @@ theorem validator_code (re : Regex) (oracle : AsyncOracle) (v : String) (f : Fil
               | (cases hs : severityOf b.block.attrs with
                   | error e => simp [hs] at h
                   | ok sev => simp only [hs, Except.ok.injEq, Option.some.injEq] at h; rw [← h]; rfl)
+              | (split at h
+                 · cases h
+                 · cases hs : severityOf b.block.attrs with
+                   | error e => simp [hs] at h
+                   | ok sev => simp only [hs, Except.ok.injEq, Option.some.injEq] at h; rw [← h]; rfl)
 
 /-- the detector table (regenerated from the source) holds the seven validators, each once -/
 theorem detector_table : Gen.detectorNames.length = 7 ∧ Gen.detectorNames.Nodup ∧
